@@ -230,7 +230,7 @@ class C10(Prop):
     title = "Prompt-injection gates block every signature hit, stay blocked, and never crash"
     extractors = ["E5-gates"]
     fixed_prefix = 1
-    quick_budget = 1600
+    quick_budget = 1300
     thorough_budget = 30000
     quick_deadline_s = 100
     thorough_deadline_s = 800
